@@ -1,4 +1,5 @@
 import PyrefactModel.Imports
+import PyrefactModel.StarImport
 /-!
 # C18 — import normalisation keeps names bound to the same objects (binding semantics of import lists)
 
@@ -41,6 +42,26 @@ example : agreeOn ["o"] [.plain "os" (some "o"), .plain "json" (some "j")] [.pla
 theorem alias_collision_counterexample :
     env [.from_ "m" "other" (some "x"), .from_ "m" "helper" (some "x")] "x" ≠
     env [.from_ "m" "helper" (some "x"), .from_ "m" "other" (some "x")] "x" := by decide
+
+open StarImport in
+/-- **star-import expansion**: when `fix_starred_imports` replaces `from m import *` by an explicit list, the list holds
+every name the client references that `m` provides (also one that shadows a builtin or that an inner scope binds as
+well), nothing `m` does not provide, and no undefined name of the client is left without a provider -/
+theorem star_expansion_keeps_bindings (c : StarImport.Client) (l : List String) (h : StarImport.expand c = some l) :
+    (∀ n ∈ c.referenced, n ∈ c.provided → n ∈ l) ∧ (∀ n ∈ l, n ∈ c.provided ∧ n ∈ c.referenced) ∧
+    (∀ n ∈ c.undefinedNames, StarImport.dunder n = false → n ∈ c.provided) :=
+  ⟨fun n hr hp => expand_complete c l h n hr hp, fun n hn => expand_sound c l h n hn,
+   fun n hu hd => expand_no_orphan c l h n hu hd⟩
+
+/-- the list of the undefined names alone (the rule until f6f2dbe) drops a provided name that is also a builtin:
+`from shadow import *; print(open(), row)` -/
+theorem star_expansion_old_drops_shadowing_name :
+    let c : StarImport.Client := ⟨["print", "open", "row"], ["row"], ["open", "row"]⟩
+    "open" ∉ StarImport.expandOld c ∧ StarImport.expand c = some ["open", "row"] := by decide
+
+-- an undefined name without a provider: the star import stays (evaluated by the compiler; `String.startsWith` does not reduce in the kernel)
+#guard StarImport.expand ⟨["parse", "dyn"], ["parse", "dyn"], ["parse"]⟩ == none
+#guard StarImport.expand ⟨["parse", "__file__"], ["parse", "__file__"], ["parse"]⟩ == some ["parse"]
 
 -- `import a.b` binds `a` (evaluated by the compiler): removing it as "unused" because only `a.c` is referenced unbinds `a`
 #guard (Imp.plain "os.path" none).bound == "os"
